@@ -10,7 +10,7 @@ CHECKS = {
                 "absence of int64 overflow whenever N < 2^53, index = position in the VCF ordering, bijection onto 0..N-1, "
                 "decode/encode inverses, enumerator = VCF order; model tied to the jitted code by differential runs inside and beyond the tables.",
         "design_ref": "DESIGN.md section 4, C11",
-        "note": _NOTE + "The 100x12 lookup tables are compared, not proved (they are filled by the same function at import).",
+        "note": _NOTE + "The 100x12 lookup tables: every entry of the model's tables is proved exact (combTable_exact, cwrTable_exact; table path == loop path) and every entry of the implementation's two tables is compared with the exact value on each run.",
         "technique": "Lean 4 proof (induction on the combinatorial number system) + differential correspondence with the jitted functions",
     },
 }
